@@ -559,10 +559,38 @@ func (c *c18) managedResource() {
 				continue
 			}
 			c.ev(kit.M{"e": "inv", "p": p, "op": "take", "r": 0})
-			last = mr.Take().(int)
+			last, _ = mr.Take().(int) // nothing returned is logged as 0, which the contract rejects
 			c.ev(kit.M{"e": "ret", "p": p, "op": "take", "r": last})
 		}
 	})
+}
+
+// managedResourceStagger: after MarkBroken the resource is empty; many takers released together
+// race through Take's read-locked fast path and its write-locked slow path: every one of them
+// must come back with a resource that was current during its call (never with nothing).
+func (c *c18) managedResourceStagger() {
+	c.ev(kit.M{"e": "reset", "kind": "mr"})
+	var fl fastLog
+	mr := syncx.NewManagedResource(func() any {
+		id := c.uniq()
+		fl.ev(kit.M{"e": "gen", "r": id})
+		return id
+	}, func(a, b any) bool { return a == b })
+	c.ev(kit.M{"e": "inv", "p": 0, "op": "take", "r": 0})
+	first, _ := mr.Take().(int)
+	fl.flush(c)
+	c.ev(kit.M{"e": "ret", "p": 0, "op": "take", "r": first})
+	c.ev(kit.M{"e": "inv", "p": 0, "op": "mark", "r": first})
+	mr.MarkBroken(first)
+	c.ev(kit.M{"e": "ret", "p": 0, "op": "mark", "r": 0})
+	g := 6 + c.rng.Intn(8)
+	c.run(g, func(p int, r *rand.Rand) {
+		spin(r.Intn(400))
+		fl.ev(kit.M{"e": "inv", "p": p, "op": "take", "r": 0})
+		x, _ := mr.Take().(int) // nothing returned is logged as 0, which the contract rejects
+		fl.ev(kit.M{"e": "ret", "p": p, "op": "take", "r": x})
+	})
+	fl.flush(c)
 }
 
 func (c *c18) spin(useBarrier bool) {
@@ -676,6 +704,13 @@ func TestVerifC18Trace(t *testing.T) {
 		{"spin", func() { c.spin(false) }}, {"barrier", func() { c.spin(true) }},
 		{"og", c.onceGuard}, {"dc", c.doneChan}, {"once", c.once},
 		{"poolage", c.poolAging}, {"ir", c.immutableResource},
+		{"mrstagger", func() {
+			for i := 0; i < kit.EnvInt("VERIF_STAGGER", 20); i++ {
+				c.managedResourceStagger()
+				c.n++
+			}
+			c.n--
+		}},
 		{"rmstagger", func() {
 			for i := 0; i < kit.EnvInt("VERIF_STAGGER", 20); i++ {
 				c.resourceManagerStagger()
